@@ -179,6 +179,23 @@ func genC08(c *Ctx) {
 			try(s.LiveRouter, "livesim", "GET", fmt.Sprintf("/livesim2/traffic_%s/testpic_2s/%s/Manifest.mpd?nowMS=100300", tr, bu), "", nil)
 		}
 	}
+	// low-latency mode with an availability offset around the segment duration (exactly equal: no chunk duration is left)
+	for _, as := range [][2]string{{"testpic_2s", "2"}, {"testpic_8s", "8"}, {"testpic_6s", "6"}} {
+		for _, ato := range []string{as[1], as[1] + ".000", as[1] + ".001", "1.999", "7.999", "5.9999", "0", "-0", "0.0001"} {
+			for _, tail := range []string{"V300/49.m4s", "A48/49.m4s", "V300/12.m4s", "Manifest.mpd"} {
+				try(s.LiveRouter, "livesim", "GET", fmt.Sprintf("/livesim2/chunkdur_1/ato_%s/%s/%s?nowMS=100300", ato, as[0], tail), "", nil)
+				try(s.LiveRouter, "livesim", "GET", fmt.Sprintf("/livesim2/ato_%s/chunkdur_0.25/%s/%s?nowMS=100300", ato, as[0], tail), "", nil)
+			}
+		}
+	}
+	// the patch endpoint with paths that are no patch documents (segments whole and chunked, init, thumbnails, MPD, nothing)
+	for _, feat := range []string{"", "chunkdur_0.5/ato_1/", "patch_60/segtimeline_1/", "eccp_cenc/", "timesubsstpp_en/", "periods_60/"} {
+		for _, tail := range []string{"V300/40.m4s", "A48/40.m4s", "V300/init.mp4", "thumbs/40.jpg", "timestpp-en/40.m4s", "Manifest.mpd", "Manifest.mpp", "Manifest", "", "V300/40.mpp", "x.mpp/V300/40.m4s"} {
+			for _, q := range []string{"?publishTime=1970-01-01T00:01:30Z", "?publishTime=1970-01-01T00:01:30Z&nowMS=100300", ""} {
+				try(s.Router, "router", "GET", "/patch/livesim2/"+feat+"testpic_2s/"+tail+q, "", nil)
+			}
+		}
+	}
 	// parameters that move the instant or the stream's time span x parameters that switch a feature on x kinds of request
 	shifters := []string{"timeoffset_-200", "timeoffset_-99.5", "timeoffset_1000", "start_101", "start_100", "startrel_10", "startrel_-10", "stop_50", "stop_0", "stoprel_-1000", "stoprel_0",
 		"start_-10", "timeoffset_-100.3", "start_100/timeoffset_-0.5"}
